@@ -44,4 +44,10 @@ package llm
 //@   init attempts = 0
 //@   call (*net/http.Client).Do update attempts = attempts + 1
 //@   ensures [C13.retries] attempts <= models.MaxHTTPRetries + 1
+// The provider's FINAL answer decides: an item is accepted only after every later item has been examined and passed over.
+//@   ghost passed map[int]bool
+//@   loop 2 return-ensures [C13.final] result1 == nil ==> 0 <= k && (item.Role == "assistant" || item.Role == "model")
+//@   loop 2 return-ensures [C13.final] result1 == nil ==> forall j in k+1..pre(len(responseObj.Items)) :: passed[j]
+//@   loop 2 update passed = store(prev(passed), prev(k), true)
+//@   loop 2 invariant k < pre(len(responseObj.Items)) && forall j in k+1..pre(len(responseObj.Items)) :: passed[j]
 //@   loop 1 invariant 0 <= i && i <= models.MaxHTTPRetries + 1 && attempts <= i
